@@ -795,7 +795,13 @@ def wedge_value(vals, ra, rb, rw):
     A, B, W = _A(a), _A(b), _A(w)
     extra = W[2] - A[2] - B[2]
     err0 = mp.mpf(extra - 1) * HALF + v(W[1]) - v(A[1]) - v(B[1])       # total minus (ta + tb + pi/2)
-    if abs(s) > mp.mpf('3e-10'):
+    # the orientation must follow the sign of sin(delta) unless the library's own 1e-10 snap may have moved the
+    # difference across a zero of the sine: that happens only JUST BELOW a quarter-turn boundary (the snap rounds
+    # up), never just above one - there the sign is decided down to rounding level
+    dlt = direction(_A(b)) - direction(_A(a))
+    fr = dlt / HALF - mp.floor(dlt / HALF)
+    below_boundary = (1 - fr) * HALF < 2 * TOL
+    if abs(s) > mp.mpf('3e-10') or (not below_boundary and abs(s) > mp.mpf('1e-13')):
         want_half = 1 if s < 0 else 0
         if abs(err0 - want_half * PI) > 3 * TOL + 32 * EPS:
             return 'wedge angle is ta+tb+pi/2 %+s, expected %s half turn(s) (sin = %s)' % (mp.nstr(err0, 8), want_half, mp.nstr(s, 5))
@@ -981,10 +987,14 @@ def invert_laws(vals, rp, rc, radbits, roff, rinv):
     d2 = mp.sqrt((qx - cx) ** 2 + (qy - cy) ** 2)
     if d1 == 0: return None
     scale = v(p[1]) + v(c[1])
-    rel1 = ((4 * SQEPS + 4 * TOL) * scale + 2 * TOL) / d1                # relative error of |p - c| (incl. the absolute 1e-10 cancellation threshold)
+    # the absolute 1e-10 allowance exists only where the library has an absolute threshold: the cancellation test of
+    # exactly opposite summands (|diff| < 1e-10 -> 0), i.e. when the two magnitudes being combined are within 1e-9
+    canc1 = 2 * TOL if abs(v(p[1]) - v(c[1])) < 10 * TOL else 0
+    rel1 = ((4 * SQEPS + 4 * TOL) * scale + canc1) / d1                   # relative error of |p - c|
     want2 = rad * rad / d1
     scale2 = v(c[1]) + want2
-    abs2 = (4 * SQEPS + 4 * TOL) * scale2 + 2 * TOL + want2 * 2 * rel1   # absolute error allowed on |p' - c|
+    canc2 = 2 * TOL if abs(v(c[1]) - want2) < 10 * TOL else 0
+    abs2 = (4 * SQEPS + 4 * TOL) * scale2 + canc2 + want2 * 2 * rel1      # absolute error allowed on |p' - c|
     if rel1 > mp.mpf('0.05'): return None                                 # ill-conditioned: nothing to check
     if abs(d2 - want2) > abs2 + 64 * EPS * want2:
         return "|p'-c||p-c| = %s, r^2 = %s" % (mp.nstr(d1 * d2, 12), mp.nstr(rad * rad, 12))
@@ -1310,6 +1320,14 @@ def abcd_ref(vals, rg, ra, rb, rc, rd, rres):
     m = canon_msg(_A(r))
     if m: return m
     if angdiff(direction(_A(r)), _radians_dir(mp.mpf(want_t))) > 2 * TOL + 64 * EPS * (1 + abs(mp.mpf(want_t))): return 'ABCD angle %s, expected C h + D theta = %r' % (mp.nstr(direction(_A(r)), 15), want_t)
+    # the angle is REBUILT from radians (Angle::new(C h + D theta, PI)): its total is that many radians, lifted by
+    # whole turns when negative - no blade history of the incoming ray survives
+    t = mp.mpf(want_t)
+    exp_total = t if t >= 0 else t + 2 * PI * mp.ceil(-t / (2 * PI))
+    A = _A(r)
+    got_total = mp.mpf(A[2]) * HALF + v(A[1])
+    if abs(got_total - exp_total) > 2 * TOL + 64 * EPS * (1 + abs(t)) and abs(got_total - exp_total - 2 * PI) > 2 * TOL + 64 * EPS * (1 + abs(t)):
+        return 'ABCD angle total %s rad, expected %s rad (rebuilt from C h + D theta)' % (mp.nstr(got_total, 15), mp.nstr(exp_total, 15))
     return None
 
 @pred
